@@ -116,7 +116,9 @@ def main(argv):
             if r2["fingerprint"] != first[str(s)]:
                 problems.append("%s seed %d: second run in the same process differs" % (prof, s))
         # (b) fresh interpreter, other hash seed
-        for hs in (("12345",) if not full else ("12345", "777")):
+        # --quick (setup_cmd, may run on a changed tree): same hash seed as the
+        # workers; --full (pinned tree): two other hash seeds
+        for hs in (("0",) if not full else ("12345", "777")):
             other = child_fps(prof, seeds if not full else seeds[::-1], hs)
             for s in seeds:
                 if other.get(str(s)) != first[str(s)]:
